@@ -290,7 +290,7 @@ def _sub(specs, seed, threads, numba_threads, timeout=900):
 def check_pairs(rec, idx, rng, tier):
     specs_all = all_specs()
     J = rec.mode == 'J'
-    npairs = (1 if tier == 'quick' else 8) if J else (8 if tier == 'quick' else 16)
+    npairs = (1 if tier == 'quick' else 8) if J else (14 if tier == 'quick' else 24)
     multi = sorted(nm for nm, v in cat().items() if v[1] >= 2 and not nm.startswith('big.') and not (J and nm == 'viewshed'))
     closure_family = ['proximity', 'allocation', 'direction']
     for q in range(npairs):
@@ -305,6 +305,10 @@ def check_pairs(rec, idx, rng, tier):
             t, m, d = int(rng.integers(0, 2)), int(rng.integers(0, 2)), int(rng.integers(0, 3))
             which = int(rng.integers(0, 3))
             t2, m2, d2 = (1 - t, m, d) if which == 0 else ((t, 1 - m, d) if which == 1 else (t, m, int(rng.choice([x_ for x_ in range(3) if x_ != d]))))
+            if rng.random() < 0.4:
+                # the search radius is the classic frozen value: a call whose finite max_distance reaches across its own (small)
+                # raster, followed by an unbounded call (or the other way round)
+                d, d2 = (2, 0) if rng.random() < 0.7 else (0, 2); t2, m2 = t, m
             va, vb = str(t * 6 + m * 3 + d), str(t2 * 6 + m2 * 3 + d2)
         A = str(rng.choice(byvar[va])); B = str(rng.choice(byvar[vb]))
         nthr = int(rng.choice([1, 4]))
